@@ -385,11 +385,16 @@ class GrammarGen:
             elif depth > 0 and r < 0.30:
                 parts.append(("group", self.gen_choice(depth - 1, i, fields_ok, fields)))
             elif r < 0.30 + self.o.p_lookahead * 0.3:
-                la = (rnd.choice(["neg", "pos"]), self.lookahead_body())
+                body = self.lookahead_body()
+                la = (rnd.choice(["neg", "pos"]), body)
                 if rnd.random() < 0.25:
                     # a chain of prefix operators: !!x, &!x, !&x
                     la = (rnd.choice(["neg", "neg", "pos"]), la)
                 parts.append(la)
+                negs = (la[0] == "neg") + (la[1][0] == "neg" if la[1] is not body else 0)
+                if negs % 2 == 0 and rnd.random() < 0.6:
+                    # the chain demands that x follows: let x follow, so that the alternative can match
+                    parts.append(body)
             elif r < 0.45 and self.frags and fields_ok and rnd.random() < self.o.p_include * 2:
                 parts.append(("inc", rnd.choice(self.frags)))
             elif r < 0.60 and self.n_main > i + 1:
